@@ -23,7 +23,10 @@ RULE = ('Generated: 1-5 junctions (1-4 demand entries each: base, pattern or def
         'valves, pipes with nominal or arbitrary diameters, energy options, optional custom lookup tables, '
         'random tables of pressure/demand/pump flow on the report grid (head = elevation + pressure), thresholds. '
         'About one case in five (no valves) is also simulated with WNTRSimulator (demand-driven, <= 7 report '
-        'steps).  Enumerated: one junction x pattern length 1..13 x pattern start {0, 1 step, off-grid}. '
+        'steps).  One case in three continues as a history of the same model object: after the first evaluation '
+        '1-2 revisions (pattern.multipliers in place; remove_pattern + add_pattern under the same name; '
+        'remove_pattern; options.hydraulic.pattern; TimeSeries.pattern_name) are applied and the demand formulas '
+        'and the simulator demand are compared again on the revised spec.  Enumerated: one junction x pattern length 1..13 x pattern start {0, 1 step, off-grid}. '
         'Non-trivial = some junction has a non-zero demand term that follows a pattern of length >= 2; '
         'distinct = SHA-1 of the canonical case.')
 ASSUMPTIONS = [
